@@ -18,6 +18,7 @@ import (
 	_ "verifmc/checks/c14"
 	_ "verifmc/checks/c15"
 	_ "verifmc/checks/c16"
+	_ "verifmc/checks/c17"
 	_ "verifmc/checks/c18"
 	_ "verifmc/checks/c19"
 	_ "verifmc/checks/c20"
